@@ -6,7 +6,8 @@ from .common import Run, corpus_cases, generic_replay, parse_list, all_flags
 PROP = "C18"
 MODULE = "PLS.Props.C18"
 THEOREMS = ["PLS.C18_priority_table", "PLS.C18_sort_classes", "PLS.C18_excluded_iff", "PLS.C18_labels_nodup",
-            "PLS.C18_func_context", "PLS.C18_parametrize_iff_indirect", "PLS.C18_valid_uses_ast"]
+            "PLS.C18_func_context", "PLS.C18_parametrize_iff_indirect", "PLS.C18_valid_uses_ast",
+            "PLS.C18_offered_in_function", "PLS.C18_test_not_self_excluded", "PLS.C18_fixture_self_excluded"]
 RULE = ("(A) every cursor line of generated documents (module level, decorators, multi-line signatures, bodies, nested "
         "classes, non-test functions) and of the incomplete 'while typing' forms: get_completion_context compared with "
         "the Lean model (AST path + text fallback) and, for valid documents, with an oracle computed from CPython's AST "
@@ -182,6 +183,22 @@ def run(tier, seed):
             sc.req("completion", p, 0, 0)
             sc.req("completion", p, 1, 0)
         scs.append(sc)
+    # a fixture whose name is also the name of a TEST function (fixed): only a fixture is withheld from its own
+    # suggestions - the test of that name may request the fixture like any other
+    FX2 = "import pytest\n\n@pytest.fixture\ndef test_user():\n    return 1\n\n@pytest.fixture\ndef plain():\n    return 2\n"
+    files = {"conftest.py": FX2,
+             "test_same.py": "def test_user():\n    pass\n\ndef test_other():\n    pass\n",
+             "sub/conftest.py": "import pytest\n\n@pytest.fixture\ndef plain(plain):\n    return plain\n\n@pytest.fixture\ndef test_user():\n    return 3\n",
+             "sub/test_same.py": "class TestK:\n    def test_user(self):\n        pass\n"}
+    sc = stdio.StdioCase("samename", files)
+    for p in files:
+        sc.open(p)
+    for p, t in files.items():
+        for l in range(t.count("\n") + 1):
+            sc.req("completion", p, l, 0)
+            if l % 4 == 0:
+                sc.req("completion", p, l, 4, "comma")
+    scs.append(sc)
     res, mcases, msp = stdio.run_all(r, scs)
     nitems = 0
     for (sc, i, step, a, m, k) in res:
